@@ -95,6 +95,14 @@ fn main() {
             std::process::exit(2);
         }
     }
-    let code = props::run(&prop, tier, seed, replay.as_deref());
+    // a panic that escapes every guard is a defect of the harness (or a library panic on a path the
+    // harness did not expect to panic): machinery exit, never a verdict
+    let code = match common::guarded(|| props::run(&prop, tier, seed, replay.as_deref())) {
+        Ok(c) => c,
+        Err(msg) => {
+            println!("MACHINERY: the harness panicked outside every guard: {msg}");
+            2
+        },
+    };
     std::process::exit(code);
 }
